@@ -492,6 +492,70 @@ def ground_instance(a_params, b_params):
     return set(sig)
 
 
+def _gen_of(bp, ap, sig):
+    """does pattern bp generalise pattern ap: is ap obtained from bp by replacing bp's variables (consistently)
+    with structure, concrete types or other variables?  ap's variables are opaque atoms.  sig: bp-variable -> ap-term"""
+    def put(key, val):
+        if key in sig:
+            return sig[key] == val
+        sig[key] = val
+        return True
+    k = bp[0]
+    if k == "var":
+        if bp[2]:           # a constrained variable only generalises one of its own constraints (or itself)
+            if ap[0] == "conc":
+                return strip_refs(ap[1]) in bp[2] and put(("ts", bp[1]), ap)
+            return ap[0] == "var" and ap[2] and set(ap[2]) <= set(bp[2]) and put(("ts", bp[1]), ap)
+        if ap[0] == "SIGNAL":
+            return False    # SIGNAL accepts more than any variable binding can express
+        return put(("ts", bp[1]), ap)
+    if k == "TSBvar":
+        ok = ap[0] in ("TSB", "TSBvar") or (ap[0] == "conc" and strip_refs(ap[1])[0] == "TSB")
+        return ok and put(("ts", bp[1]), ap)
+    if k == "svar":
+        if ap[0] == "sconc":
+            return (not bp[2] or ap[1] in bp[2]) and put(("sc", bp[1]), ap)
+        return ap[0] == "svar" and (not bp[2] or (ap[2] and set(ap[2]) <= set(bp[2]))) and put(("sc", bp[1]), ap)
+    if ap[0] != k:
+        return False
+    if k in ("conc", "sconc", "SIGNAL"): return ap == bp
+    if k in ("TS", "TSS", "REF"): return _gen_of(bp[1], ap[1], sig)
+    if k == "TSL":
+        zb, za = bp[2], ap[2]
+        if zb[0] == "szvar":
+            if za[0] == "fixed":
+                if za[1] == 0 or (zb[2] and za[1] not in zb[2]) or not put(("sz", zb[1]), za):
+                    return False
+            elif (zb[2] and not (za[2] and set(za[2]) <= set(zb[2]))) or not put(("sz", zb[1]), za):
+                return False
+        elif za != zb:
+            return False
+        return _gen_of(bp[1], ap[1], sig)
+    if k == "TSD": return _gen_of(bp[1], ap[1], sig) and _gen_of(bp[2], ap[2], sig)
+    if k == "TSW": return ap[2] == bp[2] and _gen_of(bp[1], ap[1], sig)
+    if k == "TSB":
+        return len(ap[1]) == len(bp[1]) and all(f == g and _gen_of(q, r, sig) for (f, q), (g, r) in zip(bp[1], ap[1]))
+    return False
+
+
+def generalises(b_params, a_params):
+    if len(a_params) != len(b_params):
+        return False
+    sig = {}
+    return all(kb == ka and _gen_of(pb, pa, sig) for (kb, pb), (ka, pa) in zip(b_params, a_params))
+
+
+def strictly_more_specific(a_ov, b_ov):
+    """a's parameter patterns are a substitution instance of b's and not the other way round (rank-free)"""
+    if a_ov[2] is not None or b_ov[2] is not None:      # **kwargs collectors are ranked by their pack, not compared here
+        return False
+    return generalises(b_ov[0], a_ov[0]) and not generalises(a_ov[0], b_ov[0])
+
+
+def show_params(params):
+    return " ".join(pk + ":" + (show_tp(p) if pk == "ts" else show_sp(p)) for pk, p in params) or "()"
+
+
 # ------------------------------------------------------------------------------------------------
 # generator
 # ------------------------------------------------------------------------------------------------
@@ -785,20 +849,87 @@ def exhaustive_cases(start):
     return cases
 
 
+SPEC_STREAM = "specificity"
+SPEC_CORPUS = ("01_", "06_")      # the directed cases of finding C19-a
+
+
+def gen_spec_case(rng, idx):
+    """directed variants of finding C19-a: a strictly more specific candidate whose structure costs more than the
+    variable budget it saves (bundle of >= 2 whole-time-series variables; any structure below nesting depth 6)"""
+    lines = ["case %d" % idx]
+    if rng.random() < 0.5:
+        n = rng.choice([2, 2, 3])
+        fields = FIELDS[:n]
+        vs = ["U", "V", "W"]
+        inner = []
+        for i, f in enumerate(fields):
+            r = rng.random()
+            if i < 2 or r < 0.5: inner.append((f, ("var", vs[i], ())))
+            elif r < 0.8: inner.append((f, ("TS", ("svar", "s", ()))))
+            else: inner.append((f, ("TSL", ("var", vs[i], ()), ("szvar", "N", ()))))
+        a = ("TSB", tuple(inner))
+        b = ("var", "T", ())
+        arg = ("TSB", tuple((f, ("TSL", gen_ct(rng, 1), 2) if p[0] == "TSL" else ("TS", rng.choice(SCALARS)) if p[0] == "TS"
+                             else gen_ct(rng, 1)) for f, p in inner))
+        wrap = rng.random()
+        if wrap < 0.3:        # the same pair one REF down
+            a, b, arg = ("REF", a), ("REF", b), rng.choice([arg, mk_ref(arg)])
+        extra = [("ts", ("TS", ("sconc", "int")))] if rng.random() < 0.3 else []
+        extra_arg = [("ts", ("TS", "int"))] if extra else []
+        ovs = [([("ts", b)] + extra, ("var", "T", ()), None), ([("ts", a)] + extra, ("var", "U", ()), None)]
+        calls = [[("ts", arg)] + extra_arg]
+    else:
+        depth = rng.choice([7, 7, 8, 9])
+        leaf_a = rng.choice([("TS", ("svar", "s", ())), ("TSS", ("svar", "s", ())), ("TSD", ("svar", "k", ()), ("var", "U", ()))])
+        a, b = leaf_a, ("var", "T", ())
+        if leaf_a[0] == "TSD":
+            arg = ("TSD", "str", ("TS", rng.choice(SCALARS)))
+        else:
+            arg = (leaf_a[0], rng.choice(SCALARS))
+        for _ in range(depth):
+            if rng.random() < 0.7:
+                z = rng.choice([("fixed", 0), ("szvar", "N", ()), ("fixed", 2)])
+                a, b = ("TSL", a, z), ("TSL", b, z)
+                arg = ("TSL", arg, 2)
+            else:
+                a, b = ("TSD", ("sconc", "int"), a), ("TSD", ("sconc", "int"), b)
+                arg = ("TSD", "int", arg)
+        ovs = [([("ts", b)], ("var", "T", ()), None), ([("ts", a)], None, None)]
+        calls = [[("ts", arg)]]
+    if rng.random() < 0.4:    # a bystander that does not match
+        ovs.append(([("ts", ("TS", ("sconc", "str"))), ("ts", ("TS", ("sconc", "str")))], None, None))
+    rng.shuffle(ovs)
+    labels = ["A", "B", "C"][:len(ovs)]
+    for l, ov in zip(labels, ovs):
+        lines.append(show_ov(l, ov))
+    for p in gen_perms(rng, labels, "quick"):
+        lines.append("perm " + " ".join(p))
+    for c in calls:
+        lines.append(show_call(c))
+    return Case(lines)
+
+
 def streams(rng, tier, seed):
     n = 900 if tier == "quick" else 12000
     cases = [gen_case(rng, i, tier) for i in range(n)]
     if tier != "quick":
         cases += exhaustive_cases(n)
     cdir = os.path.join(os.path.dirname(BUILD), "corpus", "C19")
-    corpus = []
+    corpus, spec = [], []
     if os.path.isdir(cdir):
         for f in sorted(os.listdir(cdir)):
-            corpus.append(Case([l.rstrip("\n") for l in open(os.path.join(cdir, f)) if l.strip()]))
+            c = Case([l.rstrip("\n") for l in open(os.path.join(cdir, f)) if l.strip()])
+            (spec if f.startswith(SPEC_CORPUS) else corpus).append(c)
+    spec += [gen_spec_case(rng, 20000 + i) for i in range(12 if tier == "quick" else 150)]
     # HGV_DISPATCH_BIN: a harness linked against a privately mutated copy of a header (mutation-testing
     # the check without forcing a rebuild of the shared tree)
     impl = os.environ.get("HGV_DISPATCH_BIN") or os.path.join(BUILD, "hgv_dispatch")
-    return [Stream("dispatch", [impl], model_cmd("C19"), corpus + cases, timeout=1800)]
+    # The rank-free specificity check (known finding C19-a) is REPORTED only on the last, directed stream:
+    # tools/vlib.py classifies just the first five monitor failures of a run, so known-finding hits must come
+    # after every other case or they would crowd out a genuine failure.  On the main stream the same check is
+    # evaluated and counted (feature "specificity-inversion") but does not raise.
+    return [Stream("dispatch", [impl], model_cmd("C19"), corpus + cases, timeout=1800),
+            Stream(SPEC_STREAM, [impl], model_cmd("C19"), spec, timeout=600)]
 
 
 # ------------------------------------------------------------------------------------------------
@@ -832,8 +963,8 @@ def _cands(s):
 
 
 def _analyse(case, out):
-    """walk one case; returns (violations, feature set, nontrivial?)"""
-    bad, feats = [], set()
+    """walk one case; returns (violations, feature set, nontrivial?, rank-free specificity violations)"""
+    bad, feats, spec = [], set(), []
     nontrivial = False
     family, order, perms, base = {}, [], [], {}
     for ln, o in zip(case.lines, list(out) + ["<none>"] * len(case.lines)):
@@ -882,13 +1013,15 @@ def _analyse(case, out):
                 if o == "err:other":
                     bad.append("driver failed on %r" % ln)
                     continue
-                nt = _check_call(ln, args, o, family, order, perms, bad, feats)
+                nt = _check_call(ln, args, o, family, order, perms, bad, feats, spec)
                 nontrivial = nontrivial or nt
         except Bad as e:
             bad.append("unparseable line %r / %r: %s" % (ln, o, e))
     feats.add("family-size:%d" % len(order))
     feats.add("orders:%d" % len(perms))
-    return bad, feats, nontrivial
+    if spec:
+        feats.add("specificity-inversion")
+    return bad, feats, nontrivial, spec
 
 
 def _ov_features(ov, feats):
@@ -931,7 +1064,7 @@ def _pat_features(p, feats, depth):
         if depth: feats.add("pattern:nested-collection")
 
 
-def _check_call(ln, args, o, family, order, perms, bad, feats):
+def _check_call(ln, args, o, family, order, perms, bad, feats, spec):
     parts = o.split(" ## ")
     head = parts[0].split()
     if not head or head[0] != "solo":
@@ -997,6 +1130,15 @@ def _check_call(ln, args, o, family, order, perms, bad, feats):
             got = ("err", m.group("err"))
         else:
             got = ("win", m.group("wl"))
+        # rank-free specificity: if A and B both match and A's parameter patterns are a substitution instance of
+        # B's (not vice versa), B must not be selected (A, or an ambiguity error, is acceptable)
+        if got[0] == "win" and got[1] in family:
+            for l in members:
+                if l != got[1] and l in msurv and l in family and strictly_more_specific(family[l], family[got[1]]):
+                    msg = ("[C19-spec] selected %s although the more specific %s also matches (call %s)"
+                           % (show_params(family[got[1]][0]), show_params(family[l][0]), ln[5:]))
+                    if msg not in spec:
+                        spec.append(msg)
         if got != pw:
             if pw == ("err", "ambiguous"):
                 bad.append("%s: best rank %d is shared by %s, expected an ambiguity error, got %s" % (ln, mn, tied, got[1]))
@@ -1072,7 +1214,10 @@ def _check_call(ln, args, o, family, order, perms, bad, feats):
 
 
 def monitor(stream, case, out):
-    return _analyse(case, out)[0][:3]
+    bad, _, _, spec = _analyse(case, out)
+    if bad:                      # anything else wrong comes first and alone: it must never be taken for the known finding
+        return bad[:3]
+    return spec[:3] if stream == SPEC_STREAM else []
 
 
 def features(stream, case, out):
